@@ -10,7 +10,7 @@
 (* Cnn_*_Step (a predicate on st, st', ev') and wrapped as                 *)
 (*      Cnn_*_Prop == [][Cnn_*_Step]_vars.                                 *)
 (***************************************************************************)
-EXTENDS Ecocredit
+EXTENDS Ecocredit, Known
 
 \* ------------------------------------------------------------------ helpers
 BalKeys(s) == {<<r.a, r.bk>> : r \in s.bal}
@@ -603,6 +603,46 @@ C08_Effect_Prop            == [][C08_Effect_Step]_vars
 C08_Authorised_Prop        == [][C08_Authorised_Step]_vars
 C08_Footprint_Prop         == [][C08_Footprint_Step]_vars
 C08_SealedStaysSealed_Prop == [][C08_SealedStaysSealed_Step]_vars
+
+\* ================================================================== C09
+\* A model of the module's own genesis validation (x/ecocredit/genesis.ValidateGenesis and
+\* the row validators it calls), restricted to what the abstraction can falsify: addresses,
+\* string formats and decimal syntax are valid by construction of the abstract state.
+\*   - Batch.Validate: end date strictly after start date (datesOK switches it off)
+\*   - every class has its credit type; every batch resolves to a project and a class
+\*   - every balance row belongs to such a batch; every basket balance names a batch that
+\*     has at least one balance row ("unknown credit batch in basket" otherwise)
+\*   - per batch with balance rows: a supply row exists and
+\*       tradable + retired supply = sum(tradable + retired + escrowed) + basket holdings
+\*   - supplies without any balance row, or balances without any supply row, are rejected
+\*   - sequences start at 1; stored amounts are non-negative
+BatchOK(s, b) == HasProjectKey(s, b.pk) /\ HasClassKey(s, ProjectByKey(s, b.pk).ck)
+WithRows(s) == {r.bk : r \in s.bal}
+GenesisValidWith(s, datesOK) ==
+  /\ datesOK => \A b \in s.batches : b.end > b.start
+  /\ \A c \in s.classes : HasCreditType(s, c.ct)
+  /\ \A b \in s.batches : BatchOK(s, b) /\ HasCreditType(s, ClassByKey(s, ProjectByKey(s, b.pk).ck).ct)
+  /\ \A r \in s.bal : HasBatchKey(s, r.bk) /\ r.t >= 0 /\ r.r >= 0 /\ r.e >= 0
+  /\ \A r \in s.supply : r.t >= 0 /\ r.r >= 0 /\ r.c >= 0
+  /\ \A x \in s.bbal : HasBatchDenom(s, x.denom) /\ BatchByDenom(s, x.denom).key \in WithRows(s) /\ x.amt >= 0
+  /\ \A bk \in WithRows(s) :
+       /\ HasSupply(s, bk)
+       /\ SupplyOf(s, bk).t + SupplyOf(s, bk).r
+            = SumBal(s, bk, LAMBDA r : r.t + r.r + r.e) + SumBBalDenom(s, BatchByKey(s, bk).denom)
+  /\ (s.bal = {}) => (s.supply = {})
+  /\ (s.supply = {}) => (s.bal = {})
+  /\ \A q \in s.cseq : q.next >= 1
+  /\ \A q \in s.pseq : q.next >= 1
+  /\ \A q \in s.bseq : q.next >= 1
+GenesisValid(s) == GenesisValidWith(s, TRUE)
+
+\* Every reachable state passes the modelled validation -- except for the recorded finding
+\* (known_findings.txt, batch_start_eq_end): MsgCreateBatch accepts start = end.
+C09_ValidGenesis ==
+  \/ GenesisValid(st)
+  \/ /\ "batch_start_eq_end" \in KnownKeys
+     /\ GenesisValidWith(st, FALSE)
+     /\ \A b \in st.batches : b.end >= b.start
 
 \* ================================================================== C13
 C13_AtMostOnce == ~gh.dup
